@@ -6,7 +6,7 @@ import re
 
 from ..program import AnalysisError, walk_local, dotted
 from ..analysis import Spec, src, const_value
-from ..rules import (template_sites, GWF, EXC, mpt, need_func, stores_to, is_const, kw,
+from ..rules import (canon, cond_equiv, positional_args, substitute_locals, template_sites, GWF, EXC, mpt, need_func, stores_to, is_const, kw,
                      parent_map, raise_class, substitute_locals)
 from . import common, c18
 from .c12 import _first_exit
@@ -136,29 +136,43 @@ def pr_once(prog, an, rep):
               'would get an integration pull request of its own')
     # caller: open PRs of these very branches
     h = need_func(an, I + '.create_integration_pull_requests')
-    op = [v for _, v in stores_to(h, 'open_prs') if v is not None]
-    ok = len(op) == 1 and isinstance(op[0], ast.ListComp) and \
-        len(op[0].generators) == 1 and \
-        [src(i) for i in op[0].generators[0].ifs] == [
-            "pr.status == 'OPEN'"] and \
-        src(op[0].generators[0].iter).replace('\n', '').replace(' ', '') \
-        .endswith('get_pull_requests(src_branch=wbranch_names)')
-    names = [v for _, v in stores_to(h, 'wbranch_names') if v is not None]
-    ok = ok and len(names) == 1 and \
-        src(names[0]) == '[wbranch.name for wbranch in wbranches]'
-    rep.evaluated()
-    rep.check(ok, 'C19.ARG.pr-once', h.qname + ': open PRs = OPEN pull '
-              'requests of the same integration branches', h.where(),
-              'open_prs is %s over %s' % ([src(v) for v in op],
-                                          [src(v) for v in names]))
     calls = [x for x in prog.calls_in(h)
              if isinstance(x.func, ast.Attribute) and
              x.func.attr == 'get_or_create_pull_request']
-    ok = len(calls) == 1 and [src(a) for a in calls[0].args] == [
-        'job.pull_request', 'open_prs', 'job.project_repo']
+    bound = dict(positional_args(h, calls[0]) or []) if len(calls) == 1 \
+        else {}
+    ok = len(bound) == 3 and [canon(h, v) for v in list(bound.values())[::2]
+                              ] == [h.params[0] + '.pull_request',
+                                    h.params[0] + '.project_repo']
     rep.check(ok, 'C19.ARG.pr-once', h.qname + ': parent PR, open PRs and '
               'host repo are handed over', h.where(), 'call is %s' %
               [src(x) for x in calls])
+    # the open PRs handed over: OPEN pull requests whose source is one of
+    # these very integration branches
+    lst = list(bound.values())[1] if len(bound) == 3 else None
+    op = [v for _, v in stores_to(h, lst.id) if v is not None] \
+        if isinstance(lst, ast.Name) else []
+    ok = False
+    shown = []
+    if len(op) == 1 and isinstance(op[0], ast.ListComp) and \
+            len(op[0].generators) == 1:
+        g = op[0].generators[0]
+        t = src(g.target)
+        it = substitute_locals(h, g.iter)
+        names = kw(it, 'src_branch') if isinstance(it, ast.Call) and \
+            isinstance(it.func, ast.Attribute) and \
+            it.func.attr == 'get_pull_requests' else None
+        shown = [src(it)]
+        ok = src(op[0].elt) == t and len(g.ifs) == 1 and \
+            cond_equiv(None, g.ifs[0], "%s.status == 'OPEN'" % t) and \
+            isinstance(names, ast.ListComp) and \
+            len(names.generators) == 1 and not names.generators[0].ifs and \
+            src(names.generators[0].iter) == h.params[1] and \
+            src(names.elt) == src(names.generators[0].target) + '.name'
+    rep.evaluated()
+    rep.check(ok, 'C19.ARG.pr-once', h.qname + ': open PRs = OPEN pull '
+              'requests of the same integration branches', h.where(),
+              'open_prs is %s over %s' % ([src(v) for v in op], shown))
 
 
 def pr_matching(prog, an, rep):
